@@ -92,6 +92,8 @@ package originium
 //@ after_call append#0: assert all(h, 0, HistLen, Hist[h].ts > o.lastCleanUpTs ==> ex(i, 0, len(result)-1, result[i] == Hist[h]))
 //@ at_exit exit: ghost Hist = ite(conflict, Hist, store(Hist, HistLen, o.committedTxns[len(o.committedTxns)-1]))
 //@ at_exit exit: ghost HistLen = ite(conflict, HistLen, HistLen + 1)
+//@ at_exit exit: assert conflict || (len(o.committedTxns) >= 1 && Hist[HistLen-1] == o.committedTxns[len(o.committedTxns)-1])
+//@ at_exit exit: assert conflict || all(h, 0, HistLen-1, Hist[h].ts > o.lastCleanUpTs ==> ex(i, 0, len(o.committedTxns)-1, o.committedTxns[i] == Hist[h]))
 //
 // ---------------------------------------------------------------------------------------------
 // The abstract store and the transaction layer (txn.go): C05 C06 C07 C08
